@@ -29,6 +29,7 @@ import (
 	"github.com/pingcap/kvproto/pkg/kvrpcpb"
 	"github.com/pingcap/log"
 	"go.uber.org/zap"
+	"github.com/tikv/client-go/v2/config"
 	"github.com/tikv/client-go/v2/config/retry"
 	tikverr "github.com/tikv/client-go/v2/error"
 	"github.com/tikv/client-go/v2/internal/mockstore/mocktikv"
@@ -96,6 +97,8 @@ type shim struct {
 	resolveNilAt  int
 	cancelAt      int
 	cancelFn      context.CancelFunc
+	startTS       uint64   // start ts of the transaction under test (0 until it begins)
+	snapFlushed   []string // keys of snapshot-tier Get/BatchGet requests at startTS that the transaction has already flushed
 }
 
 // splitAt splits the region containing key at key (no-op if key is already a region start)
@@ -156,6 +159,24 @@ func (s *shim) SendRequest(ctx context.Context, addr string, req *tikvrpc.Reques
 			s.mu.Unlock()
 		}
 		return &tikvrpc.Response{Resp: &kvrpcpb.FlushResponse{RegionError: pr.RegionError, Errors: pr.Errors}}, nil
+	case tikvrpc.CmdBatchGet, tikvrpc.CmdGet:
+		// RPC-kind oracle: what the transaction flushed is read through BufferBatchGet only, never through the snapshot tier
+		var keys [][]byte
+		var ver uint64
+		if req.Type == tikvrpc.CmdGet {
+			keys, ver = [][]byte{req.Get().Key}, req.Get().Version
+		} else {
+			keys, ver = req.BatchGet().Keys, req.BatchGet().Version
+		}
+		s.mu.Lock()
+		if s.startTS != 0 && ver == s.startTS {
+			for _, k := range keys {
+				if _, ok := s.shadow[string(k)]; ok {
+					s.snapFlushed = append(s.snapFlushed, hex.EncodeToString(k))
+				}
+			}
+		}
+		s.mu.Unlock()
 	case tikvrpc.CmdBufferBatchGet:
 		br := req.BufferBatchGet()
 		// region / epoch check by the mock store itself (an empty BatchGet in the same context)
@@ -275,6 +296,7 @@ type result struct {
 	Primary   string            `json:"primary"`
 	TTLEnd    bool              `json:"ttl_running_end"`
 	GCErr     string            `json:"gc_err"`
+	SnapFlushed []string        `json:"snapshot_reads_of_flushed"`
 	EndErr    string            `json:"end_err"`
 	PStart    string            `json:"pstart"`
 	PEnd      string            `json:"pend"`
@@ -351,6 +373,9 @@ func runCase(tc testCase) (res result) {
 		panic(err)
 	}
 	res.StartTS = txn.StartTS()
+	sh.mu.Lock()
+	sh.startTS = res.StartTS
+	sh.mu.Unlock()
 	probe := transaction.TxnProbe{KVTxn: txn}
 	committer := probe.GetCommitter()
 	if tc.Mode == "probe" {
@@ -539,6 +564,7 @@ func runCase(tc testCase) (res result) {
 	res.Flushes = append(res.Flushes, sh.flushes...)
 	res.Resolves = append(res.Resolves, sh.resolves...)
 	res.Served = append([][2]*string{}, sh.served...)
+	res.SnapFlushed = append([]string{}, sh.snapFlushed...)
 	for k := range sh.bounds {
 		res.Regions = append(res.Regions, hex.EncodeToString([]byte(k)))
 	}
@@ -563,6 +589,10 @@ func main() {
 		os.Exit(2)
 	}
 	log.ReplaceGlobals(zap.NewNop(), nil)
+	if os.Getenv("C16_ASYNC_BATCHGET") == "1" {
+		// process wide switch: BatchGet over several regions goes through the async client API
+		config.UpdateGlobal(func(c *config.Config) { c.EnableAsyncBatchGet = true })
+	}
 	raw, err := os.ReadFile(os.Args[1])
 	if err != nil {
 		panic(err)
